@@ -17,6 +17,7 @@
      do_interruption stop_cb probe_cb run_cb run_callbacks
      pop_state step               Environment.step
      run_prelude run_loop run     Environment.run(until = None | number | event)
+     run_callbacks_unfixed step_unfixed run_unfixed step_sel run_sel   the code as found before the C03 fix: (stop raised inside the callback loop)
      init_state exec_top          initial state; code executed outside any process (active = None)
 
    Conventions
@@ -662,14 +663,25 @@ Definition run_cb (fuel : nat) (codes : list prog) (e : evid) (c : cb) (s : stat
   | CbProbe n => (probe_cb n e s, ROk)
   end.
 
-(* for callback in callbacks: callback(event)   -- an exception ends the loop, the rest is lost *)
+(* for callback in callbacks: callback(event)
+   An exception raised by a callback ends the loop and the rest of the callbacks is lost -- except for
+   StopSimulation.callback (repaired code, fix: commit in onl/sim/core.py): whatever the stop callback raises
+   (StopSimulation(value), or the failure of a failed until-event) is remembered, the remaining callbacks of the
+   event still run, and it is raised right after the loop.  If a later callback raises, that exception escapes.
+   The code as found (stop raised from inside the loop, later waiters dropped) is [run_callbacks_unfixed]. *)
+Definition is_stop_cb (c : cb) : bool := match c with CbStop => true | _ => false end.
+Definition is_exit (r : result) : bool := match r with RStop _ | RRaise _ => true | _ => false end.
+
 Fixpoint run_callbacks (fuel : nat) (codes : list prog) (e : evid) (l : list cb) (s : state) : state * result :=
   match l with
   | [] => (s, ROk)
   | c :: t => let '(s1, r) := run_cb fuel codes e c s in
               match r with
               | ROk => run_callbacks fuel codes e t s1
-              | _ => (s1, r)
+              | _ => if is_stop_cb c && is_exit r
+                     then let '(s2, r2) := run_callbacks fuel codes e t s1 in
+                          match r2 with ROk => (s2, r) | _ => (s2, r2) end
+                     else (s1, r)
               end
   end.
 
@@ -763,6 +775,62 @@ Definition run (fuel : nat) (codes : list prog) (u : until) (s : state) : state 
   | inl r => r
   | inr s1 => run_loop fuel fuel codes u s1
   end.
+
+(* ------------------------------------------------------------------------------------------------ *)
+(* The kernel as found at the pinned commit, before the fix: commit for C03: StopSimulation raised from inside
+   the callback loop.  Executable copies used only to state and replay the refutation of the C03 split-transparency
+   statement ([..._refuted_before_fix]); [step_sel]/[run_sel] select by a boolean (true = repaired code). *)
+Fixpoint run_callbacks_unfixed (fuel : nat) (codes : list prog) (e : evid) (l : list cb) (s : state) : state * result :=
+  match l with
+  | [] => (s, ROk)
+  | c :: t => let '(s1, r) := run_cb fuel codes e c s in
+              match r with
+              | ROk => run_callbacks_unfixed fuel codes e t s1
+              | _ => (s1, r)
+              end
+  end.
+
+Definition step_unfixed (fuel : nat) (codes : list prog) (s : state) : state * result :=
+  match pop_min (agenda s) with
+  | None => (s, REmpty)
+  | Some (m, rest) =>
+      let e := e_ev m in
+      let s1 := pop_state m rest s in
+      match get_event e s1 with
+      | None => (s1, RBroken)
+      | Some ev =>
+          match cbs ev with
+          | None => (s1, RRaise (kexn EType M_none_not_iterable))
+          | Some l =>
+              let '(s2, r) := run_callbacks_unfixed fuel codes e l (upd_event e (ev_set_cbs None) s1) in
+              match r with
+              | ROk => (s2, check_failure e s2)
+              | _ => (s2, r)
+              end
+          end
+      end
+  end.
+
+Fixpoint run_loop_unfixed (n : nat) (fuel : nat) (codes : list prog) (u : until) (s : state) : state * result :=
+  match n with
+  | O => (s, RFuel)
+  | S m =>
+      let '(s1, r) := step_unfixed fuel codes s in
+      match r with
+      | ROk => run_loop_unfixed m fuel codes u s1
+      | REmpty => (s1, run_empty u s1)
+      | _ => (s1, r)
+      end
+  end.
+
+Definition run_unfixed (fuel : nat) (codes : list prog) (u : until) (s : state) : state * result :=
+  match run_prelude u s with
+  | inl r => r
+  | inr s1 => run_loop_unfixed fuel fuel codes u s1
+  end.
+
+Definition step_sel (fixed_stop : bool) := if fixed_stop then step else step_unfixed.
+Definition run_sel (fixed_stop : bool) := if fixed_stop then run else run_unfixed.
 
 (* ------------------------------------------------------------------------------------------------ *)
 
